@@ -113,14 +113,17 @@ def tool_part(run):
     variants += [(n, via, flag) for n in (1, 4) for via in ("file", "stdin") for flag in ("--autosql", "-a", "-as=")]
     # ... and lines whose second extra column is EMPTY (it is still a column)
     variants += [(n, via, "emptycol") for n in (3, 6) for via in ("file", "stdin")]
+    # ... and columns that hold blanks (a two-word name, a free-text description): columns are separated by tabs only
+    variants += [(n, via, "blankcol") for n in (1, 2, 5) for via in ("file", "stdin")]
     for n, via, flag in variants:
         emptycol = flag == "emptycol"
-        if emptycol:
+        blankcol = flag == "blankcol"
+        if emptycol or blankcol:
             flag = ""
-        bed = os.path.join(d, "n%d%s.bed" % (n, "e" if emptycol else ""))
+        bed = os.path.join(d, "n%d%s.bed" % (n, "e" if emptycol else ("b" if blankcol else "")))
         with open(bed, "w") as f:
             for i in range(3):
-                f.write("chrAa\t%d\t%d%s\n" % (i * 3, i * 3 + 2, "".join("\t" + ("" if (emptycol and j == 1) else "c%d" % j) for j in range(n))))
+                f.write("chrAa\t%d\t%d%s\n" % (i * 3, i * 3 + 2, "".join("\t" + ("" if (emptycol and j == 1) else ("my gene %d  x" % j if blankcol else "c%d" % j)) for j in range(n))))
         sizes = os.path.join(d, "n.sizes")
         open(sizes, "w").write("chrAa\t100\n")
         bb = os.path.join(d, "n%d.bb" % n)
@@ -162,7 +165,7 @@ def tool_part(run):
             o["obs"]["err"] = (err + err2)[-200:]
         obs.append(o)
         lines.append(json.dumps(o, separators=(",", ":")))
-        run.count_case("tool n=%d %s %s %s" % (n, via, flag, emptycol), True)
+        run.count_case("tool n=%d %s %s %s %s" % (n, via, flag, emptycol, blankcol), True)
     bad = validate_obs("Obs_AutoSql", "Obs.cfg", lines, run.wd, "tool", shards=1)
     run.cov["traces_validated_against_impl"] += len(obs)
     for i, tag in bad:
